@@ -413,4 +413,21 @@ theorem clauseMember_at (op : SOp) (V : Version) (hok : ClauseOk' op V) (hop : o
       rcases he with rfl | rfl <;> rfl
   | neStar => exact absurd rfl hop.2
 
+/-- a fold of `intersect` with single members never builds a union -/
+theorem fold_single_notUnion : ∀ (ms : List RC) (acc res : VC), acc.notUnion →
+    ms.foldlM (fun acc n => VC.intersect acc (.single n)) acc = .ok res → res.notUnion
+  | [], acc, res, h, hr => by simp only [List.foldlM_nil, pure, Except.pure, Except.ok.injEq] at hr; subst hr; exact h
+  | n :: ns, acc, res, h, hr => by
+    simp only [List.foldlM_cons, bind, Except.bind] at hr
+    cases hi : VC.intersect acc (.single n) with
+    | error e => simp [hi] at hr
+    | ok i =>
+      simp only [hi] at hr
+      have hin : i.notUnion := by
+        cases acc with
+        | union ds => exact absurd h (by simp [VC.notUnion])
+        | empty => simp only [VC.intersect, Except.ok.injEq] at hi; subst hi; trivial
+        | single m => exact RC.intersect_notUnion m n i hi
+      exact fold_single_notUnion ns i res hin hr
+
 end Poetry
